@@ -28,10 +28,10 @@ CHECKS = {
     "C02": {"units": [rapid("freex", "TestC02Free", 1000, 600, 16), rapid("csyncx", "TestC02", 10000, 100000)]},
     "C03": {"units": [rapid("freex", "TestC03Free", 1000, 600, 16), rapid("bcastx", "TestC03", 10000, 100000)]},
     "C04": {"units": [rapid("freex", "TestC04Free", 1000, 600, 16), rapid("routinex", "TestC04", 10000, 60000)]},
-    "C05": {"units": [rapid("freex", "TestC05Free", 300, 300, 16), rapid("routinex", "TestC05", 8000, 60000)]},
-    "C12": {"units": [rapid("lifox", "TestC12Controlled", 6000, 10000), rapid("lifox", "TestC12Free", 1000, 1000, 16), rapid("lifox", "TestC12Burst", 400, 400, 8), rapid("lifox", "TestC12ListBurst", 400, 400, 8), rapid("lifox", "TestC12PopRace", 60, 300, few_shards=2), rapid("lifox", "TestC12ListEnds", 60, 300, few_shards=4)]},
+    "C05": {"units": [rapid("freex", "TestC05Free", 1500, 300, 16), rapid("routinex", "TestC05", 11000, 60000)]},
+    "C12": {"units": [rapid("lifox", "TestC12Controlled", 6000, 10000), rapid("lifox", "TestC12Free", 1000, 1000, 16), rapid("lifox", "TestC12Burst", 4000, 1000, 8), rapid("lifox", "TestC12ListBurst", 1500, 800, 8), rapid("lifox", "TestC12PopRace", 60, 300, few_shards=2), rapid("lifox", "TestC12ListEnds", 60, 300, few_shards=4)]},
     "C13": {"units": [rapid("racex", "TestC13", 2500, 5000, 16, race=True, shrinktime="5s")]},
-    "C14": {"units": [rapid("routinex", "TestC14Backoff", 1500, 5000, 8), rapid("routinex", "TestC14", 10000, 60000)]},
+    "C14": {"units": [rapid("routinex", "TestC14Ctors", 400, 2000, 4), rapid("routinex", "TestC14Backoff", 1500, 5000, 8), rapid("routinex", "TestC14", 10000, 60000)]},
     "C06": {"units": [rapid("keyedx", "TestC06Keyed", 6000, 40000), rapid("keyedx", "TestC06RefCount", 6000, 40000)]},
     "C07": {"units": [rapid("freex", "TestC07Free", 1000, 600, 16), rapid("keyedx", "TestC07", 8000, 50000), rapid("keyedx", "TestC07Retry", 300, 500, 4)]},
     "C08": {"units": [rapid("freex", "TestC08Free", 1000, 600, 16), rapid("refcountx", "TestC08", 8000, 50000)]},
@@ -39,7 +39,7 @@ CHECKS = {
     "C10": {"units": [rapid("refcountx", "TestC10", 12000, 60000)]},
     "C11": {"units": [rapid("freex", "TestC11Free", 1500, 800, 16), rapid("promisex", "TestC11", 10000, 80000)]},
     "C15": {"units": [rapid("freex", "TestC15Free", 1000, 800, 16), rapid("ccontx", "TestC15", 10000, 80000), rapid("ccontx", "TestC15VT", 5000, 40000, 4)]},
-    "C16": {"units": [rapid("freex", "TestC16Free", 1500, 800, 16), rapid("promisex", "TestC16", 10000, 80000)]},
+    "C16": {"units": [rapid("freex", "TestC16Free", 1500, 800, 16), rapid("promisex", "TestC16", 10000, 80000), rapid("promisex", "TestC16Seq", 4000, 20000, 4)]},
     "C17": {"units": [rapid("freex", "TestC17Free", 1000, 600, 16), rapid("freex", "TestC17FreeWide", 400, 400, 8), rapid("ccallx", "TestC17", 20000, 150000)]},
     "C18": {"units": [rapid("freex", "TestC18Free", 500, 400, 16), rapid("concx", "TestC18", 8000, 60000)]},
     "C19": {"units": [
@@ -47,7 +47,7 @@ CHECKS = {
         rapid("codecx", "TestC19Unpad", 20000, 60000, 4),
         rapid("codecx", "TestC19Prefix", 20000, 60000, 4),
         rapid("codecx", "TestC19Prng", 20000, 60000, 4),
-        rapid("codecx", "TestC19PrngPar", 150, 150, 4),
+        rapid("codecx", "TestC19PrngPar", 600, 300, 4),
         rapid("codecx", "TestC19PrefixPar", 150, 150, 4),
         rapid("codecx", "TestC19PadPar", 150, 150, 4),
         fuzz("codecx", "FuzzC19Unpad", 30),
